@@ -93,6 +93,11 @@ def decode(frame: bytes) -> dict:
     return d
 
 
+def encode_credit(ident: int, cid: int, credits: int) -> bytes:
+    """Signalling payload (what travels on CID 5) of an LE Flow Control Credit packet, from the spec."""
+    return struct.pack('<BBHHH', C_CREDIT, ident, 4, cid, credits)
+
+
 # ---------------------------------------------------------------------------
 # CID-translating shim
 # ---------------------------------------------------------------------------
